@@ -102,11 +102,32 @@ def run_shards(prop, variant, specs, tier, seed, nworkers=None, shard_timeout=90
                on_result=None):
     """Run all shard specs; returns list of (shard_id, result | {"crash": ...})."""
     nworkers = nworkers or min(int(os.environ.get("VERIF_WORKERS", "16")), max(1, len(specs)))
+    specs = list(specs)
     pending = list(enumerate(specs))
     pending.reverse()
     workers = [Worker(prop, variant, i, tier, seed) for i in range(nworkers)]
     results = []
     active = {}
+    resumes = {}
+
+    def maybe_resume(sid, res):
+        """After a crash inside a resumable shard, queue the remainder of the shard."""
+        import json
+
+        try:
+            j = json.loads(res.get("journal", "").strip() or "null")
+        except Exception:
+            return
+        spec = specs[sid]
+        if not (isinstance(j, dict) and "_i" in j and isinstance(spec, dict) and spec.get("_resumable")):
+            return
+        resumes[sid] = resumes.get(sid, 0) + 1
+        if resumes[sid] > 40:
+            return
+        new = dict(spec)
+        new["_skip"] = j["_i"] + 1
+        specs.append(new)
+        pending.append((len(specs) - 1, new))
 
     def feed(w):
         if pending:
@@ -145,7 +166,9 @@ def run_shards(prop, variant, specs, tier, seed, nworkers=None, shard_timeout=90
                     w.p.wait()
                     res = {"crash": f"worker exited with status {w.p.returncode}",
                            "journal": w.read_journal(), "stderr": w.read_stderr()}
+                    res["spec"] = specs[w.current]
                     results.append((w.current, res))
+                    maybe_resume(w.current, res)
                     idx = w.idx
                     w.close(kill=True)
                     nw = Worker(prop, variant, idx, tier, seed)
@@ -155,7 +178,9 @@ def run_shards(prop, variant, specs, tier, seed, nworkers=None, shard_timeout=90
                 del active[fd]
                 res = {"crash": f"hang: no result after {shard_timeout}s",
                        "journal": w.read_journal(), "stderr": w.read_stderr()}
+                res["spec"] = specs[w.current]
                 results.append((w.current, res))
+                maybe_resume(w.current, res)
                 idx = w.idx
                 w.close(kill=True)
                 nw = Worker(prop, variant, idx, tier, seed)
